@@ -109,8 +109,8 @@ fn rac_document_tiles() {
     let mut cases = 0u64;
     let mut nontrivial = 0u64;
     for t in &texts {
-        let lexed = PlainEnglish.parse(t).len();
         let r = std::panic::catch_unwind(|| rac_check_doc(t));
+        let lexed = std::panic::catch_unwind(|| PlainEnglish.parse(t).len()).unwrap_or(0);
         cases += 1;
         match r {
             Ok(Ok(n)) => {
